@@ -119,6 +119,9 @@ def prop_str(case):
         want = case['delim'].join(''.join(CHARS[c] for c in codes[p]) for p in range(k))
     if str(txt) != want:
         raise Violation(f'mv_str = {txt!r}, expected {want!r}')
+    one = logic.mv_str(np.array(codes[0][0], dtype=np.uint8))           # a single value (zero-dimensional array) renders to its character
+    if str(one) != CHARS[codes[0][0]]:
+        raise Violation(f'mv_str of the zero-dimensional value {codes[0][0]} = {str(one)!r}, expected {CHARS[codes[0][0]]!r}')
     back = logic.mvarray(*str(txt).split(case['delim'])) if k > 1 else logic.mvarray(str(txt))
     if not np.array_equal(back, mva):
         raise Violation('mvarray(mv_str(a)) != a')
